@@ -312,6 +312,12 @@ def method(eng, st, recv, name, args, kwargs):
             part = bytes_slice(st, recv, -len(pre), None) if pre else b""
         eq = ops.bytes_eq(st, part, pre) if len(pre) else True
         return norm(SBool(bool_term(zand(n >= len(pre), eq)))) if not isinstance(eq, bool) or eq else False
+    if eng.inline and not isinstance(recv, (Sym, Ref)) and all(not isinstance(a, (Sym, Ref)) for a in args):
+        # cross-check mode: external objects (BytesIO ...) are the real ones
+        try:
+            return getattr(recv, name)(*args, **kwargs)
+        except Exception as e:  # noqa
+            return Cases([(True, RaiseExc(type(e), str(e)))])
     if isinstance(recv, (bytes,)) and all(not isinstance(a, Sym) for a in args):
         return getattr(recv, name)(*args)
     raise EngineUnsupported(f"method {name} on {recv!r}")
